@@ -214,6 +214,22 @@ func rulesC07(w *World, r *Report) {
 		}
 		mustPassChecked(w, r, "C07.R1", x.f, x.t, x.what)
 	}
+	// NewHeader validates the method and the factor it was given — the parameters themselves, not a default put in
+	// their place (method 0 must be refused here as it is when a header is decoded)
+	if newHeader != nil && len(newHeader.Params) == 3 {
+		for _, pr := range []struct {
+			v   *ssa.Function
+			idx int
+			nm  string
+		}{{vAgg, 0, "aggregation method"}, {vXff, 1, "xFilesFactor"}} {
+			if pr.v == nil {
+				continue
+			}
+			for _, c := range callsTo(newHeader, pr.v) {
+				r.Check(len(c.Common().Args) == 1 && c.Common().Args[0] == ssa.Value(newHeader.Params[pr.idx]), "C07.R1", "NewHeader:validates-the-given-"+strings.ReplaceAll(pr.nm, " ", "-"), w.instrPos(c), "the "+pr.nm+" validated is the parameter itself", "NewHeader validates "+shortExpr(newExprCtx(w).expr(c.Common().Args[0]))+" instead of the "+pr.nm+" it was given: a value the other entry points refuse is replaced and accepted here")
+			}
+		}
+	}
 	// what is validated is what is kept: validate's receiver is the list stored in the header
 	if newHeader != nil && val != nil {
 		for _, c := range callsTo(newHeader, val) {
@@ -982,6 +998,7 @@ func rulesC03(w *World, r *Report) {
 		}
 		r.Check(okDom, "C03.R2", "UpdatePointForArchive:check-first", w.instrPos(lo.At), "the range check precedes every write", "a write can happen before the range check")
 	}
+	ruleAddSaturates(w, r, "C03.R2")
 	// one reading of the package's clock per write, whichever entry point is used
 	ruleOneClockReading(w, r, "C03.R2", "Whisper.Update", "Whisper.UpdateMany", "Whisper.UpdatePointForArchive", "Whisper.UpdatePointsForArchive")
 	// findBestArchive receives t itself (single update) and the unclamped from (fetch): C03.R4 / C04.R4
